@@ -12,5 +12,7 @@ for f in "${files[@]}"; do
   start=$(date +%s)
   out=$(VERIF_ENGINES=${ENGINES:-native} VERIF_STOP_ON_VIOLATION=1 VERIF_SEED=${SEED:-11} ./check $prop --tier ${TIER:-quick} 2>&1); rc=$?
   git -C /repo checkout -q -- .
+  # the evidence file just written describes a mutated tree: put the committed one (clean tree) back
+  git -C /verif checkout -q -- evidence/$prop.json 2>/dev/null
   echo "RESULT $f prop=$prop rc=$rc $(( $(date +%s)-start ))s :: $(echo "$out" | grep -E "VIOLATION|KNOWN" | head -2 | tr '\n' ' ') $(echo "$out" | grep -E "^\[check\] [a-z_]+:" | head -1 | cut -c1-220)"
 done
